@@ -170,6 +170,10 @@ def run(ctx):
             if not ok:
                 nbad += 1
                 ctx.violation("c12.occluders", "c12.occluders|nonempty|%s|%s" % (disp, g), "occluders are not restricted to non-empty polygons: %s" % why, loc)
+        unk_, few_ = S.box_constructors(prog)
+        for (m_, k_, loc_) in few_:
+            nbad += 1
+            ctx.violation("c12.occluders", "c12.occluders|box|%s" % m_, "occluder boxes: " + S.FEW_CORNERS_TEXT % (m_.split("::")[-1], k_), loc_)
         ctx.require(nbad > 0, "collect_occluders: wall/shade filters not found (%s), membership predicates cannot be evaluated" % [s for s, c in filters])
         return
 
